@@ -4,7 +4,7 @@
 # re-confirms it (demo 0 on clean, non-zero patched, 39 tests) and, if all holds, replaces seeded/<id>/patch.diff by the regenerated diff.
 s="$1"; D=/verif/seeded/$s; W=/tmp/rebase_$s.$$
 git -C /repo worktree add -q --detach "$W" HEAD || exit 2
-run() { env PYTHONPATH="$W:/tmp/seed_env/stubs" PROTOCOL_BUFFERS_PYTHON_IMPLEMENTATION=python PYTHONHASHSEED=0 PYTHONDONTWRITEBYTECODE=1 timeout 900 /venv/bin/python -W ignore "$D/demo.py" "$W" > /dev/null 2>&1; }
+run() { env PYTHONPATH="$W:/verif/harness/stubs" PROTOCOL_BUFFERS_PYTHON_IMPLEMENTATION=python PYTHONHASHSEED=0 PYTHONDONTWRITEBYTECODE=1 timeout 900 /venv/bin/python -W ignore "$D/demo.py" "$W" > /dev/null 2>&1; }
 run; c=$?
 cd "$W"
 if git apply "$D/patch.diff" 2>/dev/null; then how=plain
